@@ -1552,6 +1552,22 @@ def guard_deref(ctx, args, ci, dt):
     return Ref(Cell(m))
 
 
+def guard_deref_mut(ctx, args, ci, dt):
+    g = deref(args[0])
+    m = g.data
+    if isinstance(m, Opaque) and m.tag == 'mutex':
+        return Ref(m.data, True)
+    raise ctx_unsupported('deref_mut of a guard over %r' % (m,))
+
+
+def atomic_store(ctx, args, ci, dt):
+    a = deref(args[0])
+    if isinstance(a, Opaque) and a.tag == 'atomic':
+        a.data = args[1]
+        return UNIT
+    raise ctx_unsupported('atomic store on %r' % (a,))
+
+
 def atomic_load(ctx, args, ci, dt):
     a = deref(args[0])
     if isinstance(a, Opaque) and a.tag == 'atomic':
@@ -1610,6 +1626,22 @@ def mem_swap(ctx, args, ci, dt):
 
 def mem_drop(ctx, args, ci, dt):
     return UNIT
+
+
+def box_new_uninit(ctx, args, ci, dt):
+    """`vec![a, b]` lowers to Box::<[T; N]>::new_uninit() + a write through the raw pointer + box_assume_init_into_vec_unsafe"""
+    return Ref(Cell(None), True)
+
+
+def box_into_vec(ctx, args, ci, dt):
+    inner = args[0].cell.v
+    try:
+        arr = inner.fields[1].v.fields[0].v.fields[0].v
+    except (AttributeError, IndexError):
+        raise ctx_unsupported('box_assume_init_into_vec_unsafe on %r' % (inner,))
+    if isinstance(arr, S):
+        return arr
+    return VecV(list(ctx.elems_of(arr)))
 
 
 def box_new(ctx, args, ci, dt):
@@ -1834,6 +1866,9 @@ def install(ctx):
     M['<_ as Future>::poll'] = future_poll
     M['<MutexGuard as Deref>::deref'] = guard_deref
     M['Atomic::load'] = atomic_load
+    M['Atomic::store'] = atomic_store
+    M['AtomicBool::store'] = atomic_store
+    M['<MutexGuard as DerefMut>::deref_mut'] = guard_deref_mut
     M['AtomicBool::load'] = atomic_load
     M['<Vec as TryInto>::try_into'] = bytes_try_into
     M['<&[] as TryInto>::try_into'] = bytes_try_into
@@ -1847,6 +1882,9 @@ def install(ctx):
     M['mem::drop'] = mem_drop
     M['drop'] = mem_drop
     M['Box::new'] = box_new
+    M['Box::new_uninit'] = box_new_uninit
+    M['box_assume_init_into_vec_unsafe'] = box_into_vec
+    M['boxed::box_assume_init_into_vec_unsafe'] = box_into_vec
     M['Arc::new'] = arc_new
     M['<Arc as Deref>::deref'] = arc_deref
     M['<Box as Deref>::deref'] = arc_deref
